@@ -338,6 +338,11 @@ def invariants(chk, binp, thorough):
     n, pg = (4800, 8) if thorough else (480, 6)
     res = run_parts(binp, [["c16", "glyf", "--seed", chk.seed + 104729 * p, "--n", max(1, n // parts), "--per", pg] for p in range(parts)])
     collect_inv(chk, res, r"glyf-summary ", fails, known_seen, "outline_font_metrics")
+    # fallback spaces (a typographic space the font does not map is shown with the U+0020 glyph and an advance derived
+    # from the em / the digits / the punctuation, along the run axis and with that axis' sign): outside the Gallina
+    # model's domain (Model/Simple.v excludes spaces), judged against the font's own tables
+    res = run_parts(binp, [["c16", "spaces", "--seed", chk.seed + 15485863 * p, "--n", max(1, n // parts), "--per", pg] for p in range(parts)])
+    collect_inv(chk, res, r"spaces-summary ", fails, known_seen, "fallback_space_metrics")
     return fails, known_seen
 
 
